@@ -158,6 +158,9 @@ def digest_parser(p, views=("data", "meta", "as_dict")):
     if hdr is not None:
         out["header"] = c.d(hdr)
     total = hashlib.sha256(json.dumps(out, sort_keys=True).encode()).hexdigest()[:32]
+    # per-field digests of data (not part of the total; memoised, so free): lets the driver say WHICH fields differ
+    if isinstance(p.data, dict) and len(p.data) <= 100:
+        out = dict(out, data_keys={str(k): c.d(v) for k, v in p.data.items()})
     return total, out, c.opaque
 
 
